@@ -448,14 +448,14 @@ pub fn e2e_scenario(c: &E2eCase) -> crate::e2e::Scenario {
         let frame = if *f as usize % (big.len() + 1) == big.len() { bad.clone() } else { big[*f as usize % (big.len() + 1)].clone() };
         for r in 0..=(*rep % 3) {
             if *a || !*b {
-                sends.push(crate::e2e::Send { source: 0, frame: frame.clone(), pause_ms: (i as u32 + r as u32) % 3, cut: 0 });
+                sends.push(crate::e2e::Send { source: 0, frame: frame.clone(), pause_ms: (i as u32 + r as u32) % 3, cut: 0, clock_offset_s: None });
             }
             if *b {
-                sends.push(crate::e2e::Send { source: 1, frame: frame.clone(), pause_ms: (i as u32) % 2, cut: 0 });
+                sends.push(crate::e2e::Send { source: 1, frame: frame.clone(), pause_ms: (i as u32) % 2, cut: 0, clock_offset_s: None });
             }
         }
     }
-    crate::e2e::Scenario { references: vec![None, None], sends, df_filter: None, aircraft_filter: None, dedup_ms: c.window, update_position: false, with_file: false, via_config: false, split: 0, long_table: false, track: vec![] }
+    crate::e2e::Scenario { references: vec![None, None], sends, df_filter: None, aircraft_filter: None, dedup_ms: c.window, update_position: false, with_file: false, via_config: false, split: 0, long_table: false, history_expire: None, track: vec![] }
 }
 
 pub fn judge_e2e(ctx: &Ctx, sc: &crate::e2e::Scenario, out: &crate::e2e::Outcome, rep: &Value) -> Check {
